@@ -297,6 +297,38 @@ def resolve (db : Db) (path : List Nat) (keep : Bool) (already : Already) (name 
         else .found d reason
       | _ => .found d reason
 
+/-- the declarations `findProductFromVRO` returned during the loop of `resolve`, in order (the accepted one last) -/
+def resolveTrail (db : Db) (path : List Nat) (keep : Bool) (already : Already) (name : Name) (version : Option VerReq)
+    (vexpr : Option VExpr) (depth : Nat) : Nat → List VroEnt → List Decl
+  | 0, _ => []
+  | k + 1, vro =>
+    if vro.isEmpty then [] else
+    match find db path already name version vexpr depth vro with
+    | none => []
+    | some (d, reason) =>
+      match version with
+      | some (.explicit v) =>
+        if depth = 0 ∧ d.ver.1 ≠ v then
+          (if reason ∈ vro then
+             d :: resolveTrail db path keep already name version vexpr depth k (vro.drop (vro.idxOf reason + 1))
+           else [d])
+        else [d]
+      | _ => [d]
+
+/-- `Eups._productCache`: `findProductFromVRO` hands out the first `Product` it built for a (name, version, flavor) —
+the key has no stack in it, so a later lookup that finds the same version name in another stack gets the earlier one.
+Kept as (name, version name) ↦ stack. -/
+abbrev PCache := List ((Name × VStr) × Nat)
+
+def cacheIns (c : PCache) (d : Decl) : PCache :=
+  if (aget c (d.name, d.ver.1)).isSome then c else ((d.name, d.ver.1), d.ver.2) :: c
+
+/-- the product the cache hands out for a product just found -/
+def pickDecl (db : Db) (c : PCache) (d : Decl) : Decl :=
+  match aget c (d.name, d.ver.1) with
+  | some k => (db.lookup (d.name, (d.ver.1, k))).getD d
+  | none => d
+
 /-! ## environment and state -/
 
 structure Env where
@@ -330,6 +362,7 @@ structure St where
   aliases : List (Str × Str)         -- `Eups.aliases`: restored with it
   unaliased : List Str               -- keys of `Eups.oldAliases` (marked for `unset`): restored with it
   already : Already                  -- `Eups.alreadySetupProducts`: not restored
+  cache : PCache                     -- `Eups._productCache`: not restored
 deriving Repr
 
 inductive Res where
@@ -379,7 +412,7 @@ def acts (rec : Rec) (cfg : Cfg) (fwd : Bool) (depth : Nat) (noRec : Bool) (vro 
       | .fuel => .fuel
       | .notFound s' | .raised s' =>
         -- popStack("env"): os.environ, aliases and the marks for `unset` go back to the saved values
-        let s'' := { s' with env := s.env, aliases := s.aliases, unaliased := s.unaliased }
+        let s'' : St := ⟨s.env, s.aliases, s.unaliased, s'.already, s'.cache⟩
         if fwd && !opt then .raised s'' else acts rec cfg fwd depth noRec vro d rest s''
   | a :: rest, s => acts rec cfg fwd depth noRec vro d rest (a.apply fwd d.prod s)
 
@@ -391,6 +424,12 @@ def alreadyOfEnv (db : Db) (e : Env) : Already :=
 def unwind (rec : Rec) (cfg : Cfg) (depth : Nat) (noRec : Bool) (vro : List VroEnt) (d : Decl) (s : St) : Res :=
   acts rec cfg false depth noRec vro d (d.actions cfg.exact)
     { s with env := { s.env with dirs := aunset s.env.dirs d.name, recs := aunset s.env.recs d.name } }
+
+/-- the state after the resolution loop: every product it looked at is in the product cache -/
+def St.afterResolve (s : St) (cfg : Cfg) (depth : Nat) (vro : List VroEnt) (name : Name) (version : Option VerReq)
+    (vexpr : Option VExpr) : St :=
+  let trail := resolveTrail cfg.db cfg.path cfg.keep s.already name version vexpr depth vro.length vro
+  { s with cache := trail.foldl cacheIns s.cache }
 
 /-- at depth 0 `alreadySetupProducts` is rebuilt from the environment and the chosen product entered -/
 def register (cfg : Cfg) (depth : Nat) (d : Decl) (reason : Option VroEnt) (s : St) : St :=
@@ -426,7 +465,10 @@ def setup (cfg : Cfg) : Nat → Rec
       match resolve cfg.db cfg.path cfg.keep s.already name version vexpr depth vro.length vro with
       | .none => .notFound s
       | .error => .raised s
-      | .found d reason => install (setup cfg fuel) cfg depth noRec vro d reason (register cfg depth d reason s)
+      | .found d reason =>
+        let d := pickDecl cfg.db s.cache d
+        install (setup cfg fuel) cfg depth noRec vro d reason
+          (register cfg depth d reason (s.afterResolve cfg depth vro name version vexpr))
     else
       match setupProd cfg.db s.env name with
       | none => .notFound s
@@ -447,7 +489,7 @@ deriving Repr
 def Request.cfg (r : Request) (db : Db) : Cfg := ⟨db, r.path, r.keep, r.maxDepth, !r.inexact⟩
 def Request.vro (r : Request) : List VroEnt := selectVRO r.keep r.inexact r.tags
 
-def St.init (e : Env) : St := ⟨e, [], [], []⟩
+def St.init (e : Env) : St := ⟨e, [], [], [], []⟩
 
 /-- `Eups(keep, max_depth); selectVRO(tag, versionName, inexact_version); Eups.setup(name, version)` -/
 def runSetup (db : Db) (fuel : Nat) (r : Request) (e : Env) : Res :=
